@@ -27,6 +27,7 @@ import (
 	"encoding/binary"
 	"encoding/hex"
 	"fmt"
+	"math/big"
 	"strings"
 	"testing"
 
@@ -273,7 +274,10 @@ func TestVerif_C26_Assemble(t *testing.T) {
 				}
 				switch in.Get("shape").Str() {
 				case "default":
-					builder, err = assembleRedemptionTransaction(c.chain, env.pub, main, requests, withRedemptionTotalFee(fee))
+					// exactly what redemptionAction.execute does: fee distribution and shape of the production action
+					ra := newRedemptionAction(nil, nil, c.chain, wallet{publicKey: env.pub}, nil,
+						&RedemptionProposal{RedemptionTxFee: big.NewInt(fee)}, 0, 0, nil)
+					builder, err = assembleRedemptionTransaction(ra.btcChain, ra.wallet().publicKey, main, requests, ra.feeDistribution, ra.transactionShape)
 				case "first":
 					builder, err = assembleRedemptionTransaction(c.chain, env.pub, main, requests, withRedemptionTotalFee(fee), RedemptionChangeFirst)
 				case "last":
